@@ -1132,6 +1132,10 @@ func genC18(g *G, sc *Scenario, tier string) {
 	}
 	batch := g.Range(1, 4)
 	src := map[string]any{"Type": "MultiSource", "Name": "main", "Dependencies": deps}
+	if g.P(0.3) {
+		// the same join paths declared by the transform's track_queries function (walked from the main dataset)
+		src = map[string]any{"Type": "MultiSource", "Name": "main", "_Dependencies": deps, "_track": true}
+	}
 	cfg := jobConfig("job1", src, map[string]any{"Type": "DatasetSink", "Name": "out"}, nil, "incremental", batch)
 	sc.Ops = append(sc.Ops, Op{K: "addJob", M: cfg})
 	// which predicates an entity of a dataset carries (as referencing side)
